@@ -14,7 +14,9 @@
 (*          proxy being applied)                                           *)
 (*   ety    xsd_type of every element node ("none" = None)                 *)
 (*   edc    xsd_element of every element node: 0 None, 1..3 the particle   *)
-(*          of the root model, 8 the b of grp, 9 the global element        *)
+(*          of the root model (for a ref: the global head), 7 the global   *)
+(*          element m (member of the substitution group), 8 the b of grp,  *)
+(*          9 the global element b                                         *)
 (*   aty    type of every attribute node of a BUILT _attributes list;      *)
 (*          "unbuilt" = the element has no _attributes; PSVI (defaulted)   *)
 (*          attributes are "absent" when the built list does not hold them *)
@@ -37,6 +39,15 @@
 (* conjunct of SchemaOK), but not the DECLARATION: DeclSound below is not  *)
 (* an invariant -- TLC refutes it as soon as two particles share a name    *)
 (* (MinKids = 3), which is the "default of the first particle" finding.    *)
+(*                                                                         *)
+(* A particle that is the head of a substitution group also matches the    *)
+(* member name m; the declaration is then the GLOBAL element m (re-lookup  *)
+(* by name) and THAT is what the cache must keep: CacheOK says a cache hit *)
+(* gives what a fresh scan + re-lookup gives.                              *)
+(*                                                                         *)
+(* S and S' may also differ in the definition of the global type v         *)
+(* (restriction of the type of kid 1) that instances name in xsi:type: the *)
+(* type an xsi:type resolves to is the one of the CURRENT schema.          *)
 (*                                                                         *)
 (* Guard = "typed" is the sound design: apply_schema may only skip the walk *)
 (* when tree.schema is the proxy AND the tree still carries its types.     *)
@@ -65,6 +76,7 @@ KidOK(d) == ~(d.dv /\ d.ty = "grp")
 Triples == {<<S, S2, inst>> \in
               UNION {{<<S, S2, inst>> : S2 \in Retypes(S) \ {S}, inst \in Instances(S)} : S \in Schemas} :
                  /\ \A i \in 1..Len(S2.kids) : KidOK(S2.kids[i])
+                 /\ SchemaOK(S2.kids)
                  /\ ValidInstance(S2, inst)}
 (* everything that depends on the triple only is computed ONCE, as a constant *)
 TripleRec(t) == [s1 |-> t[1], s2 |-> t[2], inst |-> t[3], f |-> Flatten(t[1], t[3]),
@@ -76,11 +88,11 @@ Inst    == TripleSeq[tid].inst
 F       == TripleSeq[tid].f                 \* same shape for both schemas (only types differ)
 AnnotOf(k) == IF k = 1 THEN TripleSeq[tid].a1 ELSE TripleSeq[tid].a2
 NodeIds == 1..Len(F)
-ElemIds == {n \in NodeIds : F[n].k \in {"ea", "eb"}}
+ElemIds == {n \in NodeIds : F[n].k \in {"ea", "eb", "em"}}
 AttrIds == {n \in NodeIds : F[n].k \in {"xa", "xc", "xx"}}
 ElemKids(n) == {m \in ElemIds : F[m].par = n}
 AttrsOf(n)  == {m \in AttrIds : F[m].par = n}
-NameOf(n)   == IF F[n].k = "ea" THEN "a" ELSE "b"
+NameOf(n)   == CASE F[n].k = "ea" -> "a" [] F[n].k = "eb" -> "b" [] F[n].k = "em" -> "m"
 AttrName(m) == CASE F[m].k = "xa" -> "a" [] F[m].k = "xc" -> "c" [] OTHER -> "xsi"
 HasXsiType(n) == \E m \in AttrsOf(n) : F[m].s = "xtype"
 XsiTypeOf(n)  == Inst.kids[F[n].i][F[n].j].xt
@@ -92,18 +104,25 @@ AscSeqW(X) == IF X = {} THEN <<>>
 ---------------------------------------------------------------------------
 (* schema components as the code sees them *)
 Particles(S, T) ==      \* content model of type T: sequence of [name, ty, dc]
-  CASE T = "root" -> [p \in 1..Len(S.kids) |-> [name |-> KidName(p), ty |-> S.kids[p].ty, dc |-> p]]
-    [] T = "grp"  -> <<[name |-> "b", ty |-> "boolean", dc |-> 8]>>
+  CASE T = "root" -> [p \in 1..Len(S.kids) |-> [name |-> KidName(p), ty |-> S.kids[p].ty, dc |-> p,
+                                                 subst |-> IF S.kids[p].sg THEN {"m"} ELSE {}]]
+    [] T = "grp"  -> <<[name |-> "b", ty |-> "boolean", dc |-> 8, subst |-> {}]>>
     [] OTHER      -> <<>>                               \* simple types, simple content: no model group
 TypeAttrs(S, T) ==      \* attribute declarations of a complex type: set of [nm, ty, use]
   CASE T = "root" -> S.atts
     [] T = "sc"   -> {[nm |-> "a", ty |-> "int", use |-> "opt"]}
     [] OTHER      -> {}
 IsComplex(T) == T \in {"root", "sc", "grp"}
-DeclTypeOf(S, dc) == CASE dc = 9 -> "root" [] dc = 8 -> "boolean" [] OTHER -> S.kids[dc].ty
-FirstMatch(ps, name) ==   \* iter_elements(): the first particle whose name matches, 0 if none
-  IF \E p \in 1..Len(ps) : ps[p].name = name
-  THEN CHOOSE p \in 1..Len(ps) : ps[p].name = name /\ \A q \in 1..(p-1) : ps[q].name # name
+DeclTypeOf(S, dc) == CASE dc = 9 -> "root" [] dc = 8 -> "boolean"
+                       [] dc = 7 -> SgMember(S.kids[1].ty)        \* the global element m
+                       [] OTHER -> S.kids[dc].ty
+Matches(pt, name) == pt.name = name \/ name \in pt.subst          \* XsdElement.is_matching
+FirstMatch(ps, name) ==   \* iter_elements(): the first particle that matches the name; the declaration is the
+                          \* particle's, or -- matched through the substitution group -- the global element of
+                          \* that name (schema.get_element); 0 if none
+  IF \E p \in 1..Len(ps) : Matches(ps[p], name)
+  THEN LET p == CHOOSE p \in 1..Len(ps) : Matches(ps[p], name) /\ \A q \in 1..(p-1) : ~Matches(ps[q], name)
+       IN IF ps[p].name = name THEN ps[p].dc ELSE 7
   ELSE 0
 
 ---------------------------------------------------------------------------
@@ -147,7 +166,7 @@ Visit ==
                  ELSE FirstMatch(ps, NameOf(n))
          T    == IF HasXsiType(n) THEN XsiTypeOf(n)
                  ELSE IF dc = 0 THEN "none"
-                 ELSE IF dc \in {8, 9} THEN DeclTypeOf(S, dc) ELSE ps[dc].ty
+                 ELSE DeclTypeOf(S, dc)
          sub  == {n} \cup ElemKids(n)
      IN /\ mcache' = IF ~HasXsiType(n) /\ fr.ty # "none" /\ hit = {} /\ dc # 0
                      THEN mcache \cup {<<fr.ty, NameOf(n), dc>>} ELSE mcache
@@ -224,7 +243,8 @@ TripleOK == /\ ValidInstance(Sch(1), Inst) /\ ValidInstance(Sch(2), Inst)
             /\ PairLaws(Sch(1), Inst) /\ PairLaws(Sch(2), Inst)
 (* NOT an invariant (see the header): the declaration attributed to a kid is its own particle *)
 DeclSound == pc = "idle" /\ ctx # 0 =>
-               \A n \in ElemIds : F[n].s = "kid" /\ ~HasXsiType(n) => edc[n] = F[n].i
+               \A n \in ElemIds : F[n].s = "kid" /\ ~HasXsiType(n) =>
+                  edc[n] = IF F[n].k = "em" THEN 7 ELSE F[n].i
 Inv == TypeOK /\ RefElems /\ RefAtts /\ WalkOK /\ CacheOK
 InitLaws == (pc = "idle" /\ ctx = 0 /\ tsch = 0 /\ aty = Unbuilt) => TripleOK
 (* the tree never keeps types of a schema the context no longer has *)
